@@ -120,11 +120,23 @@ def run(ctx):
         part = dry[k::4]
         rc, per, se = run_harness(ctx, exe, part, "dry%d" % k)
         if rc != 0 or len(per) != len(part):
-            raise core.Infra("dry run failed (rc=%d): %s" % (rc, se[-2000:]))
+            # the library does not even get through an undisturbed scenario (sanitizer report, hang)
+            bad = part[min(len(per), len(part)) - 1]
+            tr = ctx.save("dry-fail-%d.ndjson" % k, "".join(per[-1]) if per else "")
+            ctx.save("dry-fail-%d.txt" % k, (se or "")[-6000:])
+            ctx.violation("undisturbed scenario '%s' stopped the harness (exit %d): %s" % (
+                line(bad), rc, " ".join((se or "").split())[:200]), tr)
+            return None
         return [(sc, evs) for sc, evs in zip(part, per)]
 
     with ThreadPoolExecutor(max_workers=4) as ex:
-        res = [x for part in ex.map(do_dry, range(4)) for x in part]
+        parts = list(ex.map(do_dry, range(4)))
+    if any(p is None for p in parts):
+        ctx.cov["evaluations"] = len(dry)
+        ctx.cov["distinct_nontrivial"] = 0
+        ctx.cov["rule"] = "dry runs failed; nothing was enumerated"
+        return
+    res = [x for part in parts for x in part]
     dry_traces = []
     for sc, evs in res:
         d = [json.loads(x) for x in evs if '"e":"Dry"' in x]
